@@ -161,12 +161,15 @@ theorem request_never_overreads (cfg : Cfg) (clh te : Option Str) (cl : Int) (in
 
 /-- once the buffered copy exists, every access leaves it in place (only its file position moves)
 and leaves the original stream alone; `request.body.read()` returns all of it, from offset 0 -/
-theorem cached_access (q : Req) (sk : Sink) (p : Nat) (a : Access) (h : q.cache = some (sk, p)) :
+theorem cached_access (q : Req) (sk : Sink) (p : Nat) (a : Access) (h : q.cache = some (sk, p))
+    (ha : a.keepsInput = true) :
     (∃ p', (q.access a).2.cache = some (sk, p')) ∧ (q.access a).2.input = q.input ∧
     (q.access (.bodyRead none)).1 = .ok sk.body := by
   have hb : q.body = (.ok sk, { q with cache := some (sk, 0) }) := by simp [Req.body, Req.loadBody, h]
   refine ⟨?_, ?_, by simp [Req.access, hb]⟩
   · cases a with
+    | replaceInput r => cases ha
+    | setContentLength s => exact ⟨p, by simp [Req.access, h]⟩
     | inputRead => exact ⟨p + (sk.body.drop p).length, by simp [Req.access, h]⟩
     | bodyRead n =>
       refine ⟨(match n with | some k => sk.body.take k | none => sk.body).length, ?_⟩
@@ -182,6 +185,8 @@ theorem cached_access (q : Req) (sk : Sink) (p : Nat) (a : Access) (h : q.cache 
         simp only [Option.map_some, Option.some.injEq] at h6
         exact ⟨c.2, by rw [Req.access, hc, ← h6]⟩
   · cases a with
+    | replaceInput r => cases ha
+    | setContentLength s => simp [Req.access]
     | inputRead => simp [Req.access, h]
     | bodyRead n => simp [Req.access, hb]
     | bodyString =>
@@ -190,10 +195,11 @@ theorem cached_access (q : Req) (sk : Sink) (p : Nat) (a : Access) (h : q.cache 
 
 /-- **repeatable**: after a first successful `request.body.read()` returning `d`, whatever the
 handler and the hooks do next with the body (partial reads, `_get_body_string`, reading
-`wsgi.input` — which is the buffered copy by then), every later `request.body.read()` returns the
-same `d` from offset 0, and the original stream is never touched again. -/
+`wsgi.input` — which is the buffered copy by then —, assigning CONTENT_LENGTH; anything but
+replacing `wsgi.input`), every later `request.body.read()` returns the same `d` from offset 0, and
+the original stream is never touched again. -/
 theorem body_repeatable (q q1 : Req) (d : Bytes) (h : q.access (.bodyRead none) = (.ok d, q1))
-    (ops : List Access) :
+    (ops : List Access) (hops : ∀ a ∈ ops, a.keepsInput = true) :
     ((q1.run ops).access (.bodyRead none)).1 = .ok d ∧ (q1.run ops).input = q1.input := by
   -- the first access cached a buffered copy holding `d`
   have h0 : ∃ sk p, q1.cache = some (sk, p) ∧ sk.body = d := by
@@ -207,19 +213,48 @@ theorem body_repeatable (q q1 : Req) (d : Bytes) (h : q.access (.bodyRead none) 
       obtain ⟨rfl, rfl⟩ := h
       exact ⟨sk, _, rfl, rfl⟩
   obtain ⟨sk, p, hc, rfl⟩ := h0
-  have key : ∀ (ops : List Access) (q2 : Req) (p2 : Nat), q2.cache = some (sk, p2) →
+  have key : ∀ (ops : List Access) (q2 : Req) (p2 : Nat), (∀ a ∈ ops, a.keepsInput = true) →
+      q2.cache = some (sk, p2) →
       ((q2.run ops).access (.bodyRead none)).1 = .ok sk.body ∧ (q2.run ops).input = q2.input := by
     intro ops
     induction ops with
-    | nil => intro q2 p2 h2; exact ⟨(cached_access q2 sk p2 (.bodyRead none) h2).2.2, rfl⟩
+    | nil => intro q2 p2 _ h2; exact ⟨(cached_access q2 sk p2 (.bodyRead none) h2 rfl).2.2, rfl⟩
     | cons a ops ih =>
-      intro q2 p2 h2
-      obtain ⟨⟨p', hp'⟩, hin, -⟩ := cached_access q2 sk p2 a h2
+      intro q2 p2 hk h2
+      obtain ⟨⟨p', hp'⟩, hin, -⟩ := cached_access q2 sk p2 a h2 (hk a (by simp))
       have hrun : q2.run (a :: ops) = (q2.access a).2.run ops := by simp [Req.run]
       rw [hrun]
-      obtain ⟨i1, i2⟩ := ih _ p' hp'
+      obtain ⟨i1, i2⟩ := ih _ p' (fun x hx => hk x (by simp [hx])) hp'
       exact ⟨i1, by rw [i2, hin]⟩
-  exact key ops q1 p hc
+  exact key ops q1 p hops hc
+
+/-- **a replaced stream is what is read next**: whatever happened on the request before — body
+buffered, body rejected (sticky error), nothing read — once the application assigns a new
+`wsgi.input` (`request['wsgi.input'] = s`, which drops the cached body and the remembered error),
+the next `request.body.read()` returns exactly the first Content-Length bytes of the NEW stream,
+reads it no further than Content-Length, and never returns the old buffered body. -/
+theorem replaced_stream_exact (q : Req) (r : Rec) (n : Nat)
+    (hcl : q.clHeader = some (natStr n)) (hte : isChunked q.teHeader = false) (hb : 0 < q.cfg.memfile)
+    (hmax : overMax q.cfg.maxBody (min n r.st.data.length) = false) :
+    (((q.access (.replaceInput r)).2).access (.bodyRead none)).1 = .ok (r.st.data.take n) ∧
+    (((q.access (.replaceInput r)).2).access (.bodyRead none)).2.input.pos ≤ r.pos + n ∧
+    ∀ e ∈ (((q.access (.replaceInput r)).2).access (.bodyRead none)).2.input.log,
+      e ∈ r.log ∨ (r.pos ≤ e.1 ∧ e.1 + e.2 ≤ r.pos + n) := by
+  have hclv : contentLength (some (natStr n)) = .ok (n : Int) := by
+    have hne : (natStr n).isEmpty = false := by
+      cases h : natStr n with
+      | nil => exact absurd h (natStr_ne_nil n)
+      | cons _ _ => rfl
+    simp [contentLength, hne, pyInt_natStr]
+  have hex := body_exact q.cfg.memfile (n : Int) q.cfg.maxBody r hb (by simpa using hmax)
+  have hno := body_no_overread q.cfg.memfile (n : Int) q.cfg.maxBody r
+  simp only [Int.toNat_natCast] at hex hno
+  rcases hbr : bodyRead q.cfg.memfile (n : Int) false q.cfg.maxBody r with ⟨res, r'⟩
+  rw [hbr] at hex hno
+  simp only at hex hno
+  subst hex
+  simp only [Req.access, Req.body, Req.loadBody, hcl, hclv, hte, hbr, bodyOf]
+  exact ⟨trivial, hno.2, hno.1⟩
 
 section NonVacuity
 /-- `body_exact`, `request_body_exact`: a 5-byte stream delivered 1,2,… bytes at a time, Content-Length 3, buffer 2 -/
@@ -230,6 +265,9 @@ example : isChunked (some "gzip, Chunked".toList) = true := by decide
 example : ((-1 : Int) ≤ 0) := by decide
 /-- `request_never_overreads`: a handler that reads two bytes, asks for the form text, reads all -/
 example : ∀ a ∈ [Access.bodyRead (some 2), .bodyString, .bodyRead none], a.framework = true := by decide
+/-- `body_repeatable`: ops that keep the stream -/
+example : ∀ a ∈ [Access.bodyRead (some 2), .inputRead, .setContentLength "9".toList, .bodyString],
+    a.keepsInput = true := by decide
 /-- `cached_access`: a cached body with a moved file position -/
 example : ({ cfg := ⟨none, 4, []⟩, clHeader := none, teHeader := none, input := { st := ⟨[], []⟩ },
              cache := some (bodyOf 4 [1, 2, 3], 2) } : Req).cache = some (bodyOf 4 [1, 2, 3], 2) := rfl
